@@ -7,6 +7,7 @@ use crate::oracle::dsym::MSym;
 use crate::oracle::frac::Frac;
 use crate::oracle::orbifold;
 use crate::rng::Rng;
+use crate::shapes;
 use rust_dsymbols::dsets::DSet;
 use rust_dsymbols::generators::dsym_generators::{DSyms, Geometries};
 use serde_json::{json, Value};
@@ -76,6 +77,12 @@ pub struct Reference {
 }
 
 pub fn reference(s: &MSym) -> (Orbits_, Reference) {
+    reference_opt(s, true)
+}
+
+/// `enumerate = false`: only the orbit structure and the automorphisms (for sets with too many 2-orbits for the
+/// reference enumeration; outputs are then judged for validity and irredundancy only).
+pub fn reference_opt(s: &MSym, enumerate: bool) -> (Orbits_, Reference) {
     let o = orbits_of(s);
     let n_orb = o.list.len();
     // automorphisms of the D-set acting on the orbit list
@@ -120,6 +127,9 @@ pub fn reference(s: &MSym) -> (Orbits_, Reference) {
             }
         }
     };
+    if !enumerate {
+        return (Orbits_ { inner: o, orbit_perms }, r);
+    }
     // the all-minimal assignment is always evaluated
     classify(&o.vmin.clone(), &mut r);
     // depth-first over the orbits; prune when even with all remaining orbits at their minimum
@@ -165,7 +175,12 @@ fn geometry(g: usize) -> Geometries {
 
 /// Judges all four geometry settings for one D-set (given through `as_generated` or as a rebuilt SimpleDSet).
 pub fn judge_set(ctx: &mut Ctx, s: &MSym, origin: &str) {
-    let (orb, refr) = reference(s);
+    judge_set_opt(ctx, s, origin, true)
+}
+
+/// `complete = false`: validity, numbering, irredundancy, the union clause and the iterator contract only.
+pub fn judge_set_opt(ctx: &mut Ctx, s: &MSym, origin: &str, complete: bool) {
+    let (orb, refr) = reference_opt(s, complete);
     let o = &orb.inner;
     ctx.add("reference_assignments_evaluated", refr.assignments_evaluated);
     let dset = to_simple_dset(s);
@@ -173,7 +188,8 @@ pub fn judge_set(ctx: &mut Ctx, s: &MSym, origin: &str) {
     for g in 0..4 {
         let input = || json!({"set": s.to_text(), "geometry": geometry_name(g), "origin": origin});
         ctx.eval();
-        let r = observe(|| DSyms::new(&dset, geometry(g)).map(|y| (y.symbol_count(), from_dsym(&y))).collect::<Vec<_>>());
+        let cap = if complete { usize::MAX } else { 4000 };
+        let r = observe(|| DSyms::new(&dset, geometry(g)).take(cap).map(|y| (y.symbol_count(), from_dsym(&y))).collect::<Vec<_>>());
         let out = match ctx.no_panic("DSyms::new(set, geometry).collect()", input, r) {
             Some(o) => o,
             None => {
@@ -181,6 +197,28 @@ pub fn judge_set(ctx: &mut Ctx, s: &MSym, origin: &str) {
                 continue;
             }
         };
+        // the generator is an Iterator: the symbols and their numbers must not depend on how it is driven
+        {
+            let key = |count: usize, y: &MSym| format!("#{} {}", count, y.to_text());
+            let plain: Vec<String> = out.iter().map(|(c, y)| key(*c, y)).collect();
+            let h = digest(&(s, g));
+            for mode in [(h % shapes::CONSUME_MODES as u64) as usize, ((h >> 8) % shapes::CONSUME_MODES as u64) as usize] {
+                if plain.len() > 5000 {
+                    break;
+                }
+                let mut rng = Rng::stream(h, mode as u64);
+                ctx.eval();
+                match observe(|| shapes::consume(DSyms::new(&dset, geometry(g)).take(cap), plain.len(), mode, &mut rng)) {
+                    Ok(c) => {
+                        ctx.count("consumption_modes_compared_with_plain_next");
+                        if let Some(problem) = shapes::judge_consumed(&c, &plain, |y| key(y.symbol_count(), &from_dsym(y))) {
+                            ctx.violation("output-depends-on-how-the-iterator-is-driven", "DSyms as Iterator", json!({"set": s.to_text(), "geometry": geometry_name(g), "mode": c.mode}), json!(problem), "the same symbols with the same consecutive numbers whichever Iterator methods the caller uses");
+                        }
+                    }
+                    Err(p) => ctx.violation(&format!("panic@{}", p.short_loc()), "DSyms as Iterator", json!({"set": s.to_text(), "geometry": geometry_name(g), "mode": mode}), p.to_json(), "no panic"),
+                }
+            }
+        }
         let mut got: BTreeSet<Vec<usize>> = BTreeSet::new();
         for (pos, (count, y)) in out.iter().enumerate() {
             let mut problem: Option<String> = None;
@@ -220,7 +258,7 @@ pub fn judge_set(ctx: &mut Ctx, s: &MSym, origin: &str) {
             2 => refr.hyperbolic.clone(),
             _ => refr.spherical.union(&refr.euclidean).cloned().collect::<BTreeSet<_>>().union(&refr.hyperbolic).cloned().collect(),
         };
-        if got != want {
+        if complete && got != want {
             let missing: Vec<&Vec<usize>> = want.difference(&got).collect();
             let extra: Vec<&Vec<usize>> = got.difference(&want).collect();
             let show = |vs: &Vec<usize>| with_vs(s, o, vs).to_text();
@@ -239,7 +277,7 @@ pub fn judge_set(ctx: &mut Ctx, s: &MSym, origin: &str) {
         per_geometry.push(got);
     }
     // 'all' is the disjoint union of the three
-    if per_geometry.len() == 4 {
+    if per_geometry.len() == 4 && (complete || per_geometry.iter().all(|g| g.len() < 4000)) {
         let total = per_geometry[0].len() + per_geometry[1].len() + per_geometry[2].len();
         let union: BTreeSet<Vec<usize>> = per_geometry[0].iter().chain(per_geometry[1].iter()).chain(per_geometry[2].iter()).cloned().collect();
         if union.len() != total || union != per_geometry[3] {
@@ -270,6 +308,17 @@ pub fn run(cfg: &Cfg) -> Report {
             sets.push((s, name.to_string()));
         }
     }
+    // prisms: 12p flags, 3p + 2 two-orbits (p = 7: 23, p = 8: 26). Too many orbits for the reference enumeration:
+    // judged for validity, numbering, irredundancy under the automorphism group (4p elements), union clause
+    let mut big_sets: Vec<(MSym, String)> = vec![];
+    for p in cfg.tier.pick(vec![7usize, 8], vec![5, 6, 7, 8, 9, 11]) {
+        big_sets.push((gen::prism_flags(p), format!("flags of the {}-gonal prism", p)));
+    }
+    let ctx = par_items(cfg, &big_sets, |ctx, _, (s, origin)| {
+        judge_set_opt(ctx, s, origin, false);
+        ctx.count("sets_with_more_than_21_two_orbits_judged_without_reference");
+    });
+    report.absorb(ctx);
     // biggest first for load balance
     sets.sort_by_key(|(s, _)| std::cmp::Reverse(gen::adjacent_orbits(s).len()));
     let ctx = par_items(cfg, &sets, |ctx, k, (s, origin)| {
